@@ -4,9 +4,12 @@ termcolor,yansi,syntect}/src/lib.rs  ->  coq/Generated/Adapters.v.
 Per adapter: the 16-arm colour table (AnsiColor variant -> target constructor name, plus the
 `bool` of ansi_term's tuple), the names of the constructors used for indexed / RGB colours,
 and the effect list (`Effects::X` guards which target call / attribute), in source order; for
-syntect the FontStyle flag list.  Everything else of each conversion function must be, token
-for token, the skeleton written down here (the hand model Model/Adapters.v is a model of
-exactly that skeleton); anything else is a GenError = broken tie.
+syntect the FontStyle flag list.  Everything else of each conversion function is compared, token
+for token, with the skeleton written down here (the hand model Model/Adapters.v is a model of
+exactly that skeleton).  A body that differs is handed to the function translator
+(tools/gen_fn_adapters.py, see _fn_takes_over): if it still translates the crates, the tables are
+read off tolerantly and Proofs/AdaptersGen.v decides whether the hand model over them is what the
+functions do; otherwise it is a GenError = broken tie.
 Target names are emitted as byte strings (list N).  Hooked into tools/gen_model.py through
 `register`; helpers come from that module."""
 import re
@@ -91,20 +94,51 @@ def _colour_table(src, fn, ret, arm_re, what):
     return [(ANSI_NAMES.index(v), tab[v]) for v in ANSI_NAMES]
 
 
-def _need(src, text, what):
-    """the skeleton `text` must occur in the whitespace-free source; returns its captures"""
+def _fn_takes_over(why):
+    """A body that is not, token for token, the skeleton written down here is not an alarm by itself (a maintainer may
+    rename a local or move a `let`): every function of the six crates is also TRANSLATED (tools/gen_fn_adapters.py ->
+    Generated/AdaptersFn.v) and proved equal to the hand model over the tables extracted here (Proofs/AdaptersGen.v,
+    c16_translated_*; C16 names both generators in gen_deps).  So the text pin falls back on "the function translator
+    still translates the crates"; what the functions do is then the business of those proofs -- tables that were read
+    off wrongly make them fail, they cannot make them pass."""
+    fn_gen = GENERATORS.get("AdaptersFn")
+    try:
+        if fn_gen is None:
+            raise GenError("no function translator")
+        fn_gen()
+    except GenError as e:
+        raise GenError("%s (and the function translator does not take over: %s)" % (why, e))
+
+
+def _loose(src, loose, what):
+    """captures read off tolerantly: {name: (regex over the whitespace-free text, occurrence)}"""
+    out = {}
+    for name, (rx, k) in (loose or {}).items():
+        hits = re.findall(rx, src)
+        if len(hits) <= k:
+            raise GenError("%s: `%s` not found" % (what, name))
+        out[name] = hits[k]
+    return out
+
+
+def _need(src, text, what, loose=None):
+    """the skeleton `text` must occur in the whitespace-free source; returns its captures.  Otherwise the function
+    translator must take over (_fn_takes_over) and the captures are read off tolerantly (`loose`)"""
     m = re.search(_skeleton_re(text), _squash(src))
     if not m:
-        raise GenError("%s: unexpected shape (expected `%s`)" % (what, " ".join(text.split())[:160]))
+        _fn_takes_over("%s: unexpected shape (expected `%s`)" % (what, " ".join(text.split())[:160]))
+        return _loose(_squash(src), loose, what)
     return m.groupdict()
 
 
-def _conversion(src, fn, sig, stmt_re, skeleton, bits, what, swap=False):
+def _conversion(src, fn, sig, stmt_re, skeleton, bits, what, swap=False, loose=None):
     """body of the conversion function = skeleton with one run of effect statements (groups:
     effect constant, target name -- the other way round with `swap`);
     returns (effect list [(bit, constant, target name)], skeleton captures)"""
+    taken_over = False
     if _squash("fn %s%s{" % (fn, sig)) not in _squash(src):
-        raise GenError("%s: signature `fn %s%s` not found" % (what, fn, sig))
+        _fn_takes_over("%s: signature `fn %s%s` not found" % (what, fn, sig))
+        taken_over = True
     body = _squash(fn_body(src, fn))
     found = []
 
@@ -115,17 +149,19 @@ def _conversion(src, fn, sig, stmt_re, skeleton, bits, what, swap=False):
     if not found:
         raise GenError("%s: no effect statement recognised" % what)
     marked = re.sub(r"(?:@E@)+", "@EFFECTS@", marked)
-    if marked.count("@EFFECTS@") != 1:
-        raise GenError("%s: effect statements are not one contiguous run" % what)
-    m = re.fullmatch(_skeleton_re(skeleton), marked)
+    m = re.fullmatch(_skeleton_re(skeleton), marked) if marked.count("@EFFECTS@") == 1 else None
     if not m:
-        raise GenError("%s: body of %s is not the expected skeleton: %r" % (what, fn, marked[:300]))
+        if not taken_over:
+            _fn_takes_over("%s: body of %s is not the expected skeleton: %r" % (what, fn, marked[:300]))
+        caps = _loose(body, loose, what)
+    else:
+        caps = m.groupdict()
     effs = []
     for const, name in found:
         if const not in bits:
             raise GenError("%s: unknown effect constant Effects::%s" % (what, const))
         effs.append((bits[const], const, name))
-    return effs, m.groupdict()
+    return effs, caps
 
 
 def _coq_str(s):
@@ -133,7 +169,8 @@ def _coq_str(s):
 
 
 def _if_effect(action):
-    return r"ifeffects\.contains\(anstyle::Effects::(\w+)\)\{" + action + r"\}"
+    # local names are not pinned here (the skeleton pins them; when the function translator takes over they are free)
+    return r"if\w+\.contains\(anstyle::Effects::(\w+)\)\{" + action + r"\}"
 
 
 def gen_adapters():
@@ -147,7 +184,7 @@ def gen_adapters():
     cols = _colour_table(src, "ansi_to_ansi_color", "(ansi_term::Color, bool)", r"\(ansi_term::Color::(\w+),(true|false)\)", what)
     effs, cap = _conversion(
         src, "to_ansi_term", "(astyle: anstyle::Style) -> ansi_term::Style",
-        _if_effect(r"style=style\.(\w+)\(\);"),
+        _if_effect(r"\w+=\w+\.(\w+)\(\);"),
         """let mut style = ansi_term::Style::new();
            if let Some((fg, fg_bold)) = astyle.get_fg_color().map(to_ansi_color) {
                style = style.fg(fg);
@@ -156,13 +193,15 @@ def gen_adapters():
            if let Some((bg, _)) = astyle.get_bg_color().map(to_ansi_color) { style = style.on(bg); }
            let effects = astyle.get_effects();
            @EFFECTS@
-           style""", bits, what)
+           style""", bits, what, loose={"fgbold": (r"if\w+\{style=style\.(\w+)\(\);\}", 0)})
     _need(src, """fn to_ansi_color(color: anstyle::Color) -> (ansi_term::Color, bool) { match color {
                   anstyle::Color::Ansi(ansi) => ansi_to_ansi_color(ansi),
                   anstyle::Color::Ansi256(xterm) => (xterm_to_ansi_color(xterm), false),
                   anstyle::Color::Rgb(rgb) => (rgb_to_ansi_color(rgb), false), } }""", what + ": to_ansi_color")
-    fx = _need(src, "fn xterm_to_ansi_color(color: anstyle::Ansi256Color) -> ansi_term::Color { ansi_term::Color::<<fixed>>(color.0) }", what + ": xterm_to_ansi_color")
-    rg = _need(src, "fn rgb_to_ansi_color(color: anstyle::RgbColor) -> ansi_term::Color { ansi_term::Color::<<rgb>>(color.0, color.1, color.2) }", what + ": rgb_to_ansi_color")
+    fx = _need(src, "fn xterm_to_ansi_color(color: anstyle::Ansi256Color) -> ansi_term::Color { ansi_term::Color::<<fixed>>(color.0) }", what + ": xterm_to_ansi_color",
+               loose={"fixed": (r"ansi_term::Color::(\w+)\(\w+\.0\)", 0)})
+    rg = _need(src, "fn rgb_to_ansi_color(color: anstyle::RgbColor) -> ansi_term::Color { ansi_term::Color::<<rgb>>(color.0, color.1, color.2) }", what + ": rgb_to_ansi_color",
+               loose={"rgb": (r"ansi_term::Color::(\w+)\(\w+\.0,\w+\.1,\w+\.2\)", 0)})
     out["ansi_term"] = dict(cols=[(i, c[0], c[1]) for i, c in cols], effs=effs, fixed=fx["fixed"], rgb=rg["rgb"], fgbold=cap["fgbold"])
 
     # ---- crossterm ---------------------------------------------------------
@@ -171,7 +210,7 @@ def gen_adapters():
     cols = _colour_table(src, "ansi_to_ansi_color", "crossterm::style::Color", r"crossterm::style::Color::(\w+)", what)
     effs, _ = _conversion(
         src, "to_crossterm", "(astyle: anstyle::Style) -> crossterm::style::ContentStyle",
-        _if_effect(r"attributes\.set\(crossterm::style::Attribute::(\w+)\);"),
+        _if_effect(r"\w+\.set\(crossterm::style::Attribute::(\w+)\);"),
         """let foreground_color = astyle.get_fg_color().map(to_ansi_color);
            let background_color = astyle.get_bg_color().map(to_ansi_color);
            let underline_color = astyle.get_underline_color().map(to_ansi_color);
@@ -183,9 +222,11 @@ def gen_adapters():
                   anstyle::Color::Ansi(ansi) => ansi_to_ansi_color(ansi),
                   anstyle::Color::Ansi256(xterm) => xterm_to_ansi_color(xterm),
                   anstyle::Color::Rgb(rgb) => rgb_to_ansi_color(rgb), } }""", what + ": to_ansi_color")
-    fx = _need(src, "fn xterm_to_ansi_color(color: anstyle::Ansi256Color) -> crossterm::style::Color { crossterm::style::Color::<<fixed>>(color.0) }", what + ": xterm_to_ansi_color")
+    fx = _need(src, "fn xterm_to_ansi_color(color: anstyle::Ansi256Color) -> crossterm::style::Color { crossterm::style::Color::<<fixed>>(color.0) }", what + ": xterm_to_ansi_color",
+               loose={"fixed": (r"crossterm::style::Color::(\w+)\(\w+\.0\)", 0)})
     rg = _need(src, """fn rgb_to_ansi_color(color: anstyle::RgbColor) -> crossterm::style::Color {
-                       crossterm::style::Color::<<rgb>> { r: color.0, g: color.1, b: color.2, } }""", what + ": rgb_to_ansi_color")
+                       crossterm::style::Color::<<rgb>> { r: color.0, g: color.1, b: color.2, } }""", what + ": rgb_to_ansi_color",
+               loose={"rgb": (r"crossterm::style::Color::(\w+)\{r:\w+\.0,g:\w+\.1,b:\w+\.2,?\}", 0)})
     out["crossterm"] = dict(cols=[(i, c[0]) for i, c in cols], effs=effs, fixed=fx["fixed"], rgb=rg["rgb"])
 
     # ---- owo-colors --------------------------------------------------------
@@ -194,7 +235,7 @@ def gen_adapters():
     cols = _colour_table(src, "ansi_to_owo_colors_color", "owo_colors::colored::Color", r"owo_colors::colored::Color::(\w+)", what)
     effs, _ = _conversion(
         src, "to_owo_style", "(style: anstyle::Style) -> owo_colors::Style",
-        _if_effect(r"style=style\.(\w+)\(\);"),
+        _if_effect(r"\w+=\w+\.(\w+)\(\);"),
         """let fg = style.get_fg_color().map(to_owo_colors);
            let bg = style.get_bg_color().map(to_owo_colors);
            let effects = style.get_effects();
@@ -207,7 +248,9 @@ def gen_adapters():
                   anstyle::Color::Ansi(ansi) => owo_colors::DynColors::Ansi(ansi_to_owo_colors_color(ansi)),
                   anstyle::Color::Ansi256(xterm) => { owo_colors::DynColors::<<fixed>>(xterm_to_owo_colors_color(xterm)) }
                   anstyle::Color::Rgb(rgb) => { let (r, g, b) = rgb_to_owo_colors_color(rgb); owo_colors::DynColors::<<rgb>>(r, g, b) } } }""",
-                what + ": to_owo_colors")
+                what + ": to_owo_colors",
+                loose={"fixed": (r"owo_colors::DynColors::(\w+)\(xterm_to_owo_colors_color\(\w+\)\)", 0),
+                       "rgb": (r"owo_colors::DynColors::(\w+)\(\w+,\w+,\w+\)", 0)})
     _need(src, "fn xterm_to_owo_colors_color(color: anstyle::Ansi256Color) -> owo_colors::XtermColors { owo_colors::XtermColors::from(color.0) }", what + ": xterm_to_owo_colors_color")
     _need(src, "fn rgb_to_owo_colors_color(color: anstyle::RgbColor) -> (u8, u8, u8) { (color.0, color.1, color.2) }", what + ": rgb_to_owo_colors_color")
     out["owo"] = dict(cols=[(i, c[0]) for i, c in cols], effs=effs, fixed=cap["fixed"], rgb=cap["rgb"])
@@ -218,7 +261,7 @@ def gen_adapters():
     cols = _colour_table(src, "ansi_to_termcolor_color", "termcolor::Color", r"termcolor::Color::(\w+)", what)
     effs, _ = _conversion(
         src, "to_termcolor_spec", "(style: anstyle::Style) -> termcolor::ColorSpec",
-        r"style\.(\w+)\(effects\.contains\(anstyle::Effects::(\w+)\)\);",
+        r"\w+\.(\w+)\(\w+\.contains\(anstyle::Effects::(\w+)\)\);",
         """let fg = style.get_fg_color().map(to_termcolor_color);
            let bg = style.get_bg_color().map(to_termcolor_color);
            let effects = style.get_effects();
@@ -231,8 +274,10 @@ def gen_adapters():
                   anstyle::Color::Ansi(ansi) => ansi_to_termcolor_color(ansi),
                   anstyle::Color::Ansi256(xterm) => xterm_to_termcolor_color(xterm),
                   anstyle::Color::Rgb(rgb) => rgb_to_termcolor_color(rgb), } }""", what + ": to_termcolor_color")
-    fx = _need(src, "fn xterm_to_termcolor_color(color: anstyle::Ansi256Color) -> termcolor::Color { termcolor::Color::<<fixed>>(color.0) }", what + ": xterm_to_termcolor_color")
-    rg = _need(src, "fn rgb_to_termcolor_color(color: anstyle::RgbColor) -> termcolor::Color { termcolor::Color::<<rgb>>(color.0, color.1, color.2) }", what + ": rgb_to_termcolor_color")
+    fx = _need(src, "fn xterm_to_termcolor_color(color: anstyle::Ansi256Color) -> termcolor::Color { termcolor::Color::<<fixed>>(color.0) }", what + ": xterm_to_termcolor_color",
+               loose={"fixed": (r"termcolor::Color::(\w+)\(\w+\.0\)", 0)})
+    rg = _need(src, "fn rgb_to_termcolor_color(color: anstyle::RgbColor) -> termcolor::Color { termcolor::Color::<<rgb>>(color.0, color.1, color.2) }", what + ": rgb_to_termcolor_color",
+               loose={"rgb": (r"termcolor::Color::(\w+)\(\w+\.0,\w+\.1,\w+\.2\)", 0)})
     out["termcolor"] = dict(cols=[(i, c[0]) for i, c in cols], effs=effs, fixed=fx["fixed"], rgb=rg["rgb"])
 
     # ---- yansi -------------------------------------------------------------
@@ -241,19 +286,21 @@ def gen_adapters():
     cols = _colour_table(src, "ansi_to_yansi_color", "yansi::Color", r"yansi::Color::(\w+)", what)
     effs, cap = _conversion(
         src, "to_yansi_style", "(style: anstyle::Style) -> yansi::Style",
-        _if_effect(r"style=style\.(\w+)\(\);"),
+        _if_effect(r"\w+=\w+\.(\w+)\(\);"),
         """let fg = style.get_fg_color().map(to_yansi_color).unwrap_or(yansi::Color::<<deffg>>);
            let bg = style.get_bg_color().map(to_yansi_color).unwrap_or(yansi::Color::<<defbg>>);
            let effects = style.get_effects();
            let mut style = yansi::Style::new().fg(fg).bg(bg);
            @EFFECTS@
-           style""", bits, what)
+           style""", bits, what, loose={"deffg": (r"\.unwrap_or\(yansi::Color::(\w+)\)", 0), "defbg": (r"\.unwrap_or\(yansi::Color::(\w+)\)", 1)})
     _need(src, """fn to_yansi_color(color: anstyle::Color) -> yansi::Color { match color {
                   anstyle::Color::Ansi(ansi) => ansi_to_yansi_color(ansi),
                   anstyle::Color::Ansi256(xterm) => xterm_to_yansi_color(xterm),
                   anstyle::Color::Rgb(rgb) => rgb_to_yansi_color(rgb), } }""", what + ": to_yansi_color")
-    fx = _need(src, "fn xterm_to_yansi_color(color: anstyle::Ansi256Color) -> yansi::Color { yansi::Color::<<fixed>>(color.0) }", what + ": xterm_to_yansi_color")
-    rg = _need(src, "fn rgb_to_yansi_color(color: anstyle::RgbColor) -> yansi::Color { yansi::Color::<<rgb>>(color.0, color.1, color.2) }", what + ": rgb_to_yansi_color")
+    fx = _need(src, "fn xterm_to_yansi_color(color: anstyle::Ansi256Color) -> yansi::Color { yansi::Color::<<fixed>>(color.0) }", what + ": xterm_to_yansi_color",
+               loose={"fixed": (r"yansi::Color::(\w+)\(\w+\.0\)", 0)})
+    rg = _need(src, "fn rgb_to_yansi_color(color: anstyle::RgbColor) -> yansi::Color { yansi::Color::<<rgb>>(color.0, color.1, color.2) }", what + ": rgb_to_yansi_color",
+               loose={"rgb": (r"yansi::Color::(\w+)\(\w+\.0,\w+\.1,\w+\.2\)", 0)})
     out["yansi"] = dict(cols=[(i, c[0]) for i, c in cols], effs=effs, fixed=fx["fixed"], rgb=rg["rgb"], deffg=cap["deffg"], defbg=cap["defbg"])
 
     # ---- syntect -----------------------------------------------------------
@@ -265,18 +312,20 @@ def gen_adapters():
                       .bg_color(Some(to_anstyle_color(style.background)))
                       .effects(to_anstyle_effects(style.font_style)) }""", what + ": to_anstyle")
     _need(src, "fn to_anstyle_color(color: syntect::highlighting::Color) -> anstyle::Color { anstyle::RgbColor(color.r, color.g, color.b).into() }", what + ": to_anstyle_color")
+    taken_over = False
     if _squash("fn to_anstyle_effects(style: syntect::highlighting::FontStyle) -> anstyle::Effects {") not in _squash(src):
-        raise GenError(what + ": signature of to_anstyle_effects not found")
+        _fn_takes_over(what + ": signature of to_anstyle_effects not found")
+        taken_over = True
     body = _squash(fn_body(src, "to_anstyle_effects"))
     flags = []
 
     def frepl(m):
         flags.append((m.group(1), m.group(2)))
         return "@E@"
-    marked = re.sub(r"ifstyle\.contains\(syntect::highlighting::FontStyle::(\w+)\)\{effects\|=anstyle::Effects::(\w+);\}", frepl, body)
+    marked = re.sub(r"if\w+\.contains\(syntect::highlighting::FontStyle::(\w+)\)\{\w+\|=anstyle::Effects::(\w+);\}", frepl, body)
     marked = re.sub(r"(?:@E@)+", "@EFFECTS@", marked)
-    if marked != _squash("let mut effects = anstyle::Effects::new(); @EFFECTS@ effects"):
-        raise GenError(what + ": body of to_anstyle_effects is not the expected skeleton: %r" % marked[:300])
+    if marked != _squash("let mut effects = anstyle::Effects::new(); @EFFECTS@ effects") and not taken_over:
+        _fn_takes_over(what + ": body of to_anstyle_effects is not the expected skeleton: %r" % marked[:300])
     for _f, e in flags:
         if e not in bits:
             raise GenError(what + ": unknown effect constant Effects::%s" % e)
